@@ -60,11 +60,21 @@ def gen_cont(rng, depth):
         # saved stack (Maybe VmStack, inline) and save list (HashmapE 4 VmStackValue) of the control data; small values so that
         # the continuation still fits one cell (4 references in all)
         def small():
+            # (a continuation that carries a reference of its own - again, pushint, repeat - followed by whatever the enclosing
+            # control data stores after it: the place where reading one reference too few or too many shows)
             return rng.choice([['null'], ['int', rng.choice([0, 1, -1, 2 ** 63, -2 ** 255, rng.getrandbits(30)])], ['int', 7], ['tuple', []]])
+
+        def refful():
+            return rng.choice([['cont', {'t': 'again', 'body': {'t': 'quit', 'exit_code': rng.choice([0, 1, 9])}}],
+                               ['cont', {'t': 'pushint', 'value': rng.choice([0, -1, 77]), 'next': {'t': 'quit_exc'}}],
+                               ['cont', {'t': 'quit', 'exit_code': 3}]])
         if rng.random() < 0.7:
             cd['stack'] = [small() for _ in range(rng.choice([0, 1, 1, 2, 3]))]
             cd['stack_form'] = rng.choice(['list', 'list', 'cell'])
-        if rng.random() < 0.5:
+            if rng.random() < 0.4:
+                cd['stack'].append(refful())     # on top of the saved stack, i.e. inline in the control data's own cell
+                cd['top_has_ref'] = True
+        if rng.random() < 0.5 and not cd.get('top_has_ref'):
             cd['save'] = {str(k): small() for k in rng.sample(range(16), rng.choice([1, 1, 2, 4]))}
             cd['save_form'] = rng.choice(['dict', 'hashmap', 'hashmap-cells', 'cell'])
     if t == 'std':
